@@ -10,7 +10,7 @@ from ..astutil import clone as _clone
 from ..framework import rule
 from ..guards import branch_outcome
 from ..linexpr import Lin, atom_name, cmp_norm, lin
-from .common import CD, SLC, ckey
+from .common import witness_instance, CD, SLC, ckey
 
 P = "C18"
 PCCC = "pycomm3.cip.pccc"
@@ -1072,7 +1072,7 @@ def d18_13(ctx):
     for addr, ft, fno, el, sub, n, data, want in cases:
         for status in (0, 0x10):
             sent = []
-            kind, res = run_function(ctx, drv.module, rd, {"self": Obj(_sequence=Obj()), rd.args.args[1].arg: addr}, call_hook=make_hook(sent, reply(status, data)), deep=False)
+            kind, res = run_function(ctx, drv.module, rd, {"self": witness_instance(drv, _sequence=Obj()), rd.args.args[1].arg: addr}, call_hook=make_hook(sent, reply(status, data)), deep=False)
             key = ckey(f"{drv.key}._read_tag", f"witness:{addr}/status{status:02x}")
             if kind == "unknown":
                 ctx.undecided(key, rd, f"_read_tag not foldable on {addr}: {res}")
@@ -1090,7 +1090,7 @@ def d18_13(ctx):
     for addr, ft, fno, el, sub, n, value, payload in wcases:
         for status in (0, 0x10):
             sent = []
-            kind, res = run_function(ctx, drv.module, wr, {"self": Obj(_sequence=Obj()), wr.args.args[1].arg: addr, wr.args.args[2].arg: value}, call_hook=make_hook(sent, reply(status)), deep=False)
+            kind, res = run_function(ctx, drv.module, wr, {"self": witness_instance(drv, _sequence=Obj()), wr.args.args[1].arg: addr, wr.args.args[2].arg: value}, call_hook=make_hook(sent, reply(status)), deep=False)
             key = ckey(f"{drv.key}._write_tag", f"witness:{addr}/status{status:02x}")
             if kind == "unknown":
                 ctx.undecided(key, wr, f"_write_tag not foldable on {addr}: {res}")
@@ -1114,7 +1114,7 @@ def d18_13(ctx):
             return UNKNOWN
 
         vararg = fn.args.vararg.arg if fn.args.vararg else None
-        kind, res = run_function(ctx, drv.module, fn, {"self": Obj(), vararg: tuple(args)}, call_hook=hook, deep=False)
+        kind, res = run_function(ctx, drv.module, fn, {"self": witness_instance(drv), vararg: tuple(args)}, call_hook=hook, deep=False)
         key = ckey(f"{drv.key}.{name}", f"shape:{len(args)}")
         if kind == "unknown":
             ctx.undecided(key, fn, f"{name} not foldable: {res}")
